@@ -11,6 +11,11 @@ Definition assure_newline (b : list N) : list N := if ends_in_newline b then b e
 Definition m_equal (expr line : list N) : bool := list_eqb (assure_newline expr) line.
 Definition m_noeol (expr line : list N) : bool := list_eqb expr line.
 Definition m_escaped (bytes line : list N) : bool := list_eqb bytes (trim_newlines line).
+(* EscapedRule::make, Cram compatibility: a trailing ` (no-eol)` of the expression is not part of it (the comparison
+   ignores the final newline anyway); what remains is what the escape sequences are resolved in *)
+Definition NOEOL_SUFFIX : list N := [32; 40; 110; 111; 45; 101; 111; 108; 41].
+Definition escaped_body (e : list N) : list N :=
+  if Nat.leb 9 (length e) && list_eqb (skipn (length e - 9) e) NOEOL_SUFFIX then firstn (length e - 9) e else e.
 
 (* ---------- glob: `?` exactly one character, `*` any run (wildmatch) ---------- *)
 Definition STAR : N := 42.
